@@ -30,6 +30,30 @@ def gen_items(rng, n_items, keys, marks=None, sleep=False):
     return items
 
 
+ITEM_KINDS = ["dict", "dict", "int", "bytes", "str", "tuple"]
+
+
+def materialise(kind, payloads):
+    """The objects actually handed to parallel_add for a list of payload dicts, and the lookup table (or None).
+
+    Every non-dict kind starts with a *falsy* handle (0, b"", "", ()), bytes handles are not valid UTF-8: any list of
+    items is legal input, and helpers.py formats items into log messages."""
+    n = len(payloads)
+    if kind == "dict":
+        return list(payloads), None
+    if kind == "int":
+        handles = list(range(n))
+    elif kind == "bytes":
+        handles = [b"" if i == 0 else b"\xff\xfe\x80" + bytes([i % 256, i // 256]) for i in range(n)]
+    elif kind == "str":
+        handles = ["" if i == 0 else f"item-{i}" for i in range(n)]
+    elif kind == "tuple":
+        handles = [() if i == 0 else (i,) for i in range(n)]
+    else:
+        raise ValueError(kind)
+    return handles, {h: p for h, p in zip(handles, payloads)}
+
+
 def gen_args(rng, combo, cms_kind=None):
     args = {}
     if "cms" in combo:
@@ -149,14 +173,15 @@ def _prober(key, cfg):
     return p
 
 
-def run_inproc(items, schedule, n_workers, args, as_generator=False, die=True):
+def run_inproc(items, schedule, n_workers, args, as_generator=False, die=True, kind="dict"):
     """Real parallel_add under the steered synchronous context. Returns (outcome, result|exc, ctx)."""
     s = sk()
-    src = (it for it in items) if as_generator else list(items)
+    handles, table = materialise(kind, items)
+    src = (it for it in handles) if as_generator else list(handles)
     with fakectx.Patched(s.helpers, schedule) as ctx:
         try:
             res = s.helpers.parallel_add(src, callbacks.process_item, n_workers=n_workers, event_file=None,
-                                         die=fakectx.SimulatedDeath if die else None, **args)
+                                         die=fakectx.SimulatedDeath if die else None, table=table, **args)
             return "returned", res, ctx
         except fakectx.Hang as exc:
             return "hang", exc, ctx
